@@ -15,10 +15,12 @@ func init() {
 			rulePersistRestoreAgree(c, "C05.R4")
 			c.Rule("C05.R5", "reload is all-or-nothing at the caller", 2)
 			ruleReloadAllOrNothing(c, "C05.R5")
-			c.Rule("C01.R2", "an IP enters the allocated table only after the Create of that object succeeded (per object)", 3)
-			ruleCreateBeforeCache(c, "C01.R2")
-			c.Rule("C01.R3", "errors of the store client are returned by the store wrappers", 5)
-			ruleStoreErrorsPropagate(c, "C01.R3")
+			c.Rule("C05.R6", "lookup, store write and memory update in one critical section", 12)
+			ruleOneCriticalSection(c, "C05.R6")
+			c.Rule("C05.R7", "an IP enters the allocated table only after the Create of that object succeeded (per object)", 3)
+			ruleCreateBeforeCache(c, "C05.R7")
+			c.Rule("C05.R8", "errors of the store client are returned by the store wrappers", 5)
+			ruleStoreErrorsPropagate(c, "C05.R8")
 		}})
 	register(&propDef{ID: "C08", Title: "Multi-IP requests get one IP per range, all or nothing",
 		Explanation: "Decides: (R1-R3 = C05.R2) rollback loop + non-nil error on a failed create, memory only after all creates, ErrNoEnoughIP unreachable after a create; (R4) a candidate is picked only if it is in the unallocated table, its pool lists the node subnet, and it was not chosen for an earlier range; (R5) in Bind the pod is bound only after allocateIP succeeded. Does not decide 'i-th IP in i-th range', result order, or partially pre-owned ranges (index arithmetic over runtime slices).",
@@ -43,5 +45,11 @@ func init() {
 			ruleReservationHandlers(c, "C09.R3")
 			c.Rule("C09.R4", "reload deletes only objects outside every configured pool", 2)
 			ruleReloadDeletesOnlyForeign(c, "C09.R4")
+			c.Rule("C09.R5", "a store Create conflict (IP reserved but not yet seen) is returned, never absorbed", 5)
+			ruleStoreErrorsPropagate(c, "C09.R5")
+			c.Rule("C09.R6", "mutators keep lookup, store write and memory update in one critical section (a concurrent reload cannot interleave)", 12)
+			ruleOneCriticalSection(c, "C09.R6")
+			c.Rule("C09.R7", "tables only under the cache lock", 25)
+			ruleGuardedBy(c, "C09.R7", []string{cacheLockID}, 40)
 		}})
 }
